@@ -33,15 +33,17 @@ theorem C04_f2r_spec (soh : Nat) (secs : List Sec) (hs : ∀ s ∈ secs, s.InRan
   rw [if_neg (by omega), f2rSecs_eq_spec]
 
 /-- **Slicing a file view.**  `slice(rva, min, align)` succeeds exactly when the rva is non-null and
-aligned, the first section containing it has its raw data inside the buffer (no wrap), and at least
-`min` bytes remain to the end of the raw data; the returned bytes then start at the mapped file
-offset and end where the section's raw data ends. -/
+aligned, the first section containing it has its raw data inside the buffer (no wrap), the rva lies
+strictly inside that raw data (offset `< SizeOfRawData`: the byte at `SizeOfRawData` is the first byte
+of the zero-filled tail, not an empty window, see `C04_tail_zero_fill`), and at least `min` bytes
+remain to the end of the raw data; the returned bytes then start at the mapped file offset and end
+where the section's raw data ends. -/
 theorem C04_slice_file_ok_iff (img : Img) (secs : List Sec) (hs : ∀ s ∈ secs, s.InRange)
     (rva min align : Nat) (hr : rva < 4294967296) (r : Ref) :
     sliceFile img secs rva min align = .ok r ↔
       rva ≠ 0 ∧ isPow2 align = true ∧ (img.base + rva) % align = 0 ∧
       ∃ s, firstV secs rva = some s ∧ s.prd + s.rs < 4294967296 ∧ s.prd + s.rs ≤ img.bytes.size ∧
-        rva - s.va ≤ s.rs ∧ min ≤ s.rs - (rva - s.va) ∧
+        rva - s.va < s.rs ∧ min ≤ s.rs - (rva - s.va) ∧
         (img.base + (s.prd + (rva - s.va))) % align = 0 ∧
         r = ⟨s.prd + (rva - s.va), s.rs - (rva - s.va), align⟩ := by
   rw [sliceFile_ok_iff_range, rangeFile_eq]
@@ -127,14 +129,33 @@ theorem C04_slice_agrees_r2f (img : Img) (soh : Nat) (secs : List Sec) (hs : ∀
   show (if s.prd + s.rs ≥ 4294967296 then _ else _) = _
   rw [if_neg (by omega), if_pos (by omega)]
 
-/-- Error classes of a failing slice: virtual-only tail → `ZeroFill`; outside every section →
-`Bounds`; request longer than the virtual extent → `Bounds`. -/
+/-- The same for every requested length, `min = 0` included: a successful slice never starts on a
+byte that `rva_to_file_offset` does not map (before the boundary fix of `range_file` the empty
+window at offset `SizeOfRawData` was a counterexample for `min = 0`). -/
+theorem C04_slice_agrees_r2f_any_min (img : Img) (soh : Nat) (secs : List Sec) (hs : ∀ s ∈ secs, s.InRange)
+    (rva min align : Nat) (hr : rva < 4294967296) (hsoh : soh ≤ rva) (r : Ref)
+    (h : sliceFile img secs rva min align = .ok r) :
+    rvaToFileOffset soh secs rva = .ok r.off ∧ 1 ≤ r.len := by
+  obtain ⟨_, _, _, s, hf, h1, h2, h3, h4, _, rfl⟩ :=
+    (C04_slice_file_ok_iff img secs hs rva min align hr r).1 h
+  refine ⟨?_, ?_⟩
+  · rw [C04_r2f_spec soh secs hs rva hr hsoh]
+    unfold specR2F
+    rw [hf]
+    show (if s.prd + s.rs ≥ 4294967296 then _ else _) = _
+    rw [if_neg (by omega), if_pos h3]
+  · show 1 ≤ s.rs - (rva - s.va)
+    omega
+
+/-- Error classes of a failing slice: virtual-only tail (from its first byte, offset
+`SizeOfRawData`, on, and for every requested length that fits the virtual extent, zero included)
+→ `ZeroFill`; outside every section → `Bounds`; request longer than the virtual extent → `Bounds`. -/
 theorem C04_slice_file_errors (img : Img) (secs : List Sec) (hs : ∀ s ∈ secs, s.InRange)
     (rva min align : Nat) (hr : rva < 4294967296) (h0 : rva ≠ 0) (hp : isPow2 align = true)
     (ha : (img.base + rva) % align = 0) :
     (firstV secs rva = none → sliceFile img secs rva min align = .err .bounds) ∧
     (∀ s, firstV secs rva = some s → s.prd + s.rs < 4294967296 → s.prd + s.rs ≤ img.bytes.size →
-        s.rs ≤ rva - s.va → 1 ≤ min → min ≤ (s.va + max s.vs s.rs) % 4294967296 - rva →
+        s.rs ≤ rva - s.va → min ≤ (s.va + max s.vs s.rs) % 4294967296 - rva →
         sliceFile img secs rva min align = .err .zeroFill) ∧
     (∀ s, firstV secs rva = some s → s.prd + s.rs < 4294967296 → s.prd + s.rs ≤ img.bytes.size →
         (s.va + max s.vs s.rs) % 4294967296 - rva < min →
@@ -143,7 +164,7 @@ theorem C04_slice_file_errors (img : Img) (secs : List Sec) (hs : ∀ s ∈ secs
   refine ⟨?_, ?_, ?_⟩
   · intro hf
     rw [hE, rangeFile_eq, hf]
-  · intro s hf h1 h2 h3 h4 h5
+  · intro s hf h1 h2 h3 h4
     rw [hE, rangeFile_eq, hf]
     show (match rangeOne img.bytes.size s rva min with
       | .ok (o, l) => if (img.base + o) % align = 0 then Out.ok (⟨o, l, align⟩ : Ref) else .err .misaligned
@@ -158,6 +179,57 @@ theorem C04_slice_file_errors (img : Img) (secs : List Sec) (hs : ∀ s ∈ secs
       | .err e => .err e | .panic s => .panic s
       | .ub s => .ub s | .diverge => .diverge) = _
     rw [rangeOne_nowrap h1 h2, if_neg (by omega), if_pos (by unfold wadd32; omega)]
+
+/-- **The virtual-only tail.**  Let `s` be the first section containing `rva`, its raw range inside
+the buffer and not wrapping, and `rva` at or beyond the end of the raw data (`SizeOfRawData ≤
+rva - VirtualAddress`; equality is the first tail byte).  Then `slice_file` never succeeds, whatever
+length (zero included) and alignment are requested; it answers exactly `ZeroFill` when the rva is
+non-null and aligned and the request fits the virtual extent; and `rva_to_file_offset` answers
+`ZeroFill` at the same rva: the two lookups agree on every tail byte, the first one included. -/
+theorem C04_tail_zero_fill (img : Img) (soh : Nat) (secs : List Sec) (hs : ∀ s ∈ secs, s.InRange)
+    (rva min align : Nat) (hr : rva < 4294967296)
+    (s : Sec) (hf : firstV secs rva = some s) (h1 : s.prd + s.rs < 4294967296)
+    (h2 : s.prd + s.rs ≤ img.bytes.size) (h3 : s.rs ≤ rva - s.va) :
+    (∀ r, sliceFile img secs rva min align ≠ .ok r) ∧
+    (rva ≠ 0 → isPow2 align = true → (img.base + rva) % align = 0 →
+        min ≤ (s.va + max s.vs s.rs) % 4294967296 - rva →
+        sliceFile img secs rva min align = .err .zeroFill) ∧
+    specR2F secs rva = .err .zeroFill ∧
+    (soh ≤ rva → rvaToFileOffset soh secs rva = .err .zeroFill) := by
+  have hc := containsRva_nowrap (hs s (firstV_some hf).1) (firstV_some hf).2
+  have hspec : specR2F secs rva = .err .zeroFill := by
+    unfold specR2F
+    rw [hf]
+    show (if s.prd + s.rs ≥ 4294967296 then Out.err Err.overflow
+      else if rva - s.va < s.rs then Out.ok (s.prd + (rva - s.va))
+      else if rva - s.va < s.vs then .err .zeroFill else .err .bounds) = _
+    rw [if_neg (by omega), if_neg (by omega), if_pos (by omega)]
+  refine ⟨?_, ?_, hspec, ?_⟩
+  · intro r h
+    obtain ⟨_, _, _, s', hf', _, _, h3', _⟩ :=
+      (C04_slice_file_ok_iff img secs hs rva min align hr r).1 h
+    rw [hf] at hf'
+    cases hf'
+    omega
+  · intro h0 hp ha hm
+    exact (C04_slice_file_errors img secs hs rva min align hr h0 hp ha).2.1 s hf h1 h2 h3 hm
+  · intro hsoh
+    rw [C04_r2f_spec soh secs hs rva hr hsoh, hspec]
+
+/-- The first tail byte on a concrete section (`VirtualAddress = 0x1000`, `SizeOfRawData = 0x10`,
+`VirtualSize = 0x20`, raw data at file offset 0x20 of a 0x30-byte buffer): a zero-length request at
+`va + rs` is `ZeroFill` (it used to be an empty window), like the byte after it and like
+`rva_to_file_offset`; the last stored byte still slices. -/
+example : let img : Img := ⟨⟨List.replicate 0x30 0⟩, 0⟩
+    let secs : List Sec := [⟨0, 0, 0x20, 0x1000, 0x10, 0x20, 0⟩]
+    sliceFile img secs (0x1000 + 0x10) 0 1 = .err .zeroFill ∧
+    sliceFile img secs (0x1000 + 0x11) 0 1 = .err .zeroFill ∧
+    sliceFile img secs (0x1000 + 0x10) 1 1 = .err .zeroFill ∧
+    sliceFile img secs (0x1000 + 0x10) 0x11 1 = .err .bounds ∧
+    sliceFile img secs (0x1000 + 0xF) 0 1 = .ok ⟨0x2F, 1, 1⟩ ∧
+    rvaToFileOffset 0x20 secs (0x1000 + 0x10) = .err .zeroFill ∧
+    firstV secs (0x1000 + 0x10) = some ⟨0, 0, 0x20, 0x1000, 0x10, 0x20, 0⟩ := by
+  decide +kernel
 
 /-- **Inversion** on every byte that is both stored and mapped, for well-formed tables. -/
 theorem C04_f2r_inverts_r2f (soh : Nat) (secs : List Sec) (hs : ∀ s ∈ secs, s.InRange) (hwf : WF soh secs)
